@@ -11,7 +11,7 @@ FILES = ["frame_test.go"]
 OBLIGATIONS = [
     "c09_seg_roundtrip", "c09_seg_layout", "c09_segs_roundtrip", "c09_frame_layout",
     "c09_spec_decoder", "c09_spec_decoder_oob", "c09_spec_decoder_parity",
-    "c09_fec_ids", "c09_fec_ids_distinct", "c09_slots_distinct", "c09_oob_ids", "c09_parity_is_rs",
+    "c09_fec_ids", "c09_fec_ids_distinct", "c09_slots_distinct", "c09_oob_ids", "c09_parity_ids_consumed", "c09_parity_is_rs",
     "c09_fresh_nonce_each", "c09_distinct", "c09_orbit",
 ]
 
